@@ -21,7 +21,7 @@ DEV_OFF = {"DropOrder": '"reverse"', "ResetCounterOnInstall": "TRUE", "MprotectS
 # =============================================================== lifecycle family
 
 JUMP_FLAVOURS = ["raw", "rawfn", "closure", "fake", "unchecked"]
-POOL_FLAVOURS = {"rust": JUMP_FLAVOURS, "libc": ["raw", "fake", "unchecked"], "generic": ["raw", "unchecked"],
+POOL_FLAVOURS = {"rust": JUMP_FLAVOURS, "rustpg": JUMP_FLAVOURS, "libc": ["raw", "fake", "unchecked"], "generic": ["raw", "unchecked"],
                  "async": ["async", "async_unchecked"]}
 
 
@@ -80,7 +80,19 @@ def hist_to_scenario(hist, sid, pool, nf, diff, reuse_sites=False):
             cur["steps"].append({"op": "call_unwind", "f": int(h["f"][1:]), "match": h["match"]})
         elif a == "End":
             cur = None
+        elif a == "Regen":
+            lives.append({"kind": "regen", "f": int(h["f"][1:]), "steps": []})
     return {"id": sid, "pool": pool, "nf": nf, "diff": diff, "lives": lives, "ctor": "default" if sid % 3 == 0 else "new"}
+
+
+def variant_label(sc):
+    if sc.get("ambient"):
+        return " [ambient unwinding]"
+    if sc["lives"] and sc["lives"][0].get("drop_fault"):
+        return " [munmap fails at scope exit]"
+    if sc["lives"] and sc["lives"][0].get("deny"):
+        return " [target page never writable]"
+    return ""
 
 
 def history_key(hist):
@@ -91,7 +103,7 @@ def history_key(hist):
             parts.append("I(%s,%s,%s,n=%s,%s,%s)" % (h["f"], h["kind"], h["fake"], h["n"], h["gate"], h["fault"]))
         elif a in ("Call", "CallUnwind"):
             parts.append("%s(%s,%s)" % (a, h["f"], "match" if h["match"] else "nomatch"))
-        elif a in ("Panic", "Drop", "New"):
+        elif a in ("Panic", "Drop", "New", "Regen"):
             parts.append(a)
     return " ".join(parts)
 
@@ -202,6 +214,9 @@ def gen_behaviours(cfg, tier_seed_sim=None, timeout=900):
 def lifecycle_models(run, tier, overrides=None):
     cfgs = ["MC_Lifecycle_q1", "MC_Lifecycle_q2", "MC_Steps_q"] if tier == "quick" else \
            ["MC_Lifecycle_q1", "MC_Lifecycle_q2", "MC_Lifecycle_t", "MC_Steps_t"]
+    if run.prop in ("C02", "C03"):
+        # + the environment replaces a function's code between lifetimes (Regenerate)
+        cfgs.insert(2, "MC_Lifecycle_rg")
     for c in cfgs:
         cfg = c
         if overrides:
@@ -265,6 +280,17 @@ def lifecycle_check(prop, tier):
                 seenl.add(k)
                 hists.append(h)
         run.extra["long_histories"] = len(seenl)
+    regen_from = len(hists)
+    if prop in ("C02", "C03"):
+        # three lifetimes with the function's code replaced by the environment in between (pool "rustpg")
+        hg, gg = gen_behaviours("MC_LifecycleApi_rg", timeout=3000)
+        if tier == "quick":
+            hg = [h for k, h in enumerate(hg) if k % 4 == vlib.seed() % 4]
+        hists += hg
+        run.states += gg["distinct"]
+        run.transitions += gg["generated"]
+        run.extra["regenerated_code_histories"] = len(hg)
+    regen_to = len(hists)
     nchained = 0
     if prop == "C05":
         # "repeated for many consecutive lifetimes": lifetimes are independent in the model, so the
@@ -288,6 +314,8 @@ def lifecycle_check(prop, tier):
     scen = []
     for i, h in enumerate(hists, 1):
         pool = "rust" if prop in ("C07", "C06") or nf == 1 else choose_pool(h, i)
+        if regen_from < i <= regen_to:
+            pool = "rustpg"
         # chained lifetimes (C05) evaluate the same fake! lines again, as a test body run in a loop would
         chained = prop == "C05" and i > len(hists) - nchained
         scen.append(hist_to_scenario(h, i, "rust" if chained else pool, nf, diff=(prop == "C03" or i % 7 == 0),
@@ -300,7 +328,7 @@ def lifecycle_check(prop, tier):
             sc = json.loads(json.dumps(scen[i]))
             sc["id"] = len(scen) + 1
             sc["ambient"] = True
-            sc["pool"] = "rust"
+            sc["pool"] = "rustpg" if sc["pool"] == "rustpg" else "rust"
             for life in sc["lives"]:
                 for st in life["steps"]:
                     if st.get("op") == "install" and st.get("flavour") not in JUMP_FLAVOURS + ["counted", "bool"]:
@@ -321,12 +349,42 @@ def lifecycle_check(prop, tier):
                 life["drop_fault"] = "munmap"
             scen.append(sc)
             hists.append(hists[i])
+    if prop in ("C17", "C05", "C02"):
+        # the faulted target sits on a page that NEVER becomes writable (a sealed or read-only file mapping), not just
+        # once: targets on pages of their own (pool "rustpg"); behaviours where the refused function is not
+        # installed otherwise in that lifetime (the page would refuse those too).  Trace specification only.
+        ndeny = 0
+        for i in range(n_plain):
+            sc0 = scen[i]
+            okb = False
+            for life in sc0["lives"]:
+                ins = [st for st in life["steps"] if st.get("op") == "install"]
+                den = [st for st in ins if st.get("fault") == "mprotect" and st.get("gate") == "ok"]
+                if den and all(st["f"] != d["f"] or st is d for d in den for st in ins) and len(den) == 1:
+                    okb = True
+                elif den:
+                    okb = False
+                    break
+            if not okb:
+                continue
+            sc = json.loads(json.dumps(sc0))
+            sc["id"] = len(scen) + 1
+            sc["pool"] = "rustpg"
+            for life in sc["lives"]:
+                life["deny"] = "page"
+                for st in life["steps"]:
+                    if st.get("op") == "install" and st.get("flavour") not in JUMP_FLAVOURS + ["counted", "bool"]:
+                        st["flavour"] = "raw"
+            scen.append(sc)
+            hists.append(hists[i])
+            ndeny += 1
+        run.extra["denied_page_variants"] = ndeny
     groups, order, _ = vlib.run_harness("lifecycle", scen, "lifecycle_" + prop)
     # spec -> impl
     nviol = 0
     for i, h in enumerate(hists, 1):
         evs = groups.get(i, [])
-        key = history_key(h) + ((" [munmap fails at scope exit]" if scen[i - 1]["lives"] and scen[i - 1]["lives"][0].get("drop_fault") else " [ambient unwinding]") if i > n_plain else "")
+        key = history_key(h) + (variant_label(scen[i - 1]) if i > n_plain else "")
         if any(x["act"] == "Install" for x in h):
             run.note_case(key)
         else:
@@ -355,9 +413,7 @@ def lifecycle_check(prop, tier):
             reached, total = tv["progress"][sid]
             evs = groups.get(sid, [])
             first_bad = evs[reached] if reached < len(evs) else None
-            variant = ""
-            if sid > n_plain:
-                variant = " [munmap fails at scope exit]" if scen[sid - 1]["lives"] and scen[sid - 1]["lives"][0].get("drop_fault") else " [ambient unwinding]"
+            variant = variant_label(scen[sid - 1]) if sid > n_plain else ""
             key = "%s history=%s%s" % (prop, history_key(hists[sid - 1]), variant)
             run.violation(key, {"behaviour": hists[sid - 1], "scenario": scen[sid - 1],
                                 "trace_rejected_at": reached, "first_unmatched_event": first_bad,
@@ -1168,7 +1224,7 @@ def sig_check(prop, tier):
         run.traces += len(tva["accepted"])
         run.states += tva["states"]
         run.transitions += tva["transitions"]
-        if sum(1 for e in aevs if e["ev"] == "AsyncPair") < 25:
+        if sum(1 for e in aevs if e["ev"] == "AsyncPair") < 49:
             raise ToolError("vacuity guard: async pairs did not run")
         for sid, ev1 in aper:
             e = ev1[0]
@@ -1537,6 +1593,7 @@ DEVIATIONS = [
     ("MC_Lifecycle", "MC_Lifecycle_q1", {"SwallowPoison": "FALSE"}, ("Reusable",)),
     ("MC_Lifecycle", "MC_Lifecycle_q1", {"FlushEntry": "FALSE"}, ("FlushedAtUser",)),
     ("MC_Lifecycle", "MC_Lifecycle_q1", {"UnmapOnDrop": "FALSE"}, ("NoLeak",)),
+    ("MC_Lifecycle", "MC_Lifecycle_rg", {"SavedFrom": '"first"'}, ("OnlyNamed", "Restored")),
     ("MC_Lock", "MC_Lock_q", {"UnlockFirst": "TRUE"}, ("Mutex", "FreeMeansOrig", "PrevSeesOrig", "HolderIsLock")),
     ("MC_Lock", "MC_Lock_q", {"SwallowPoison": "FALSE"}, ("Reusable", "HandOver", "NoStuck", "temporal")),
     ("MC_Times", "MC_Times_q", {"AtomicCount": '"loadStore"'}, ("Accounting", "Budget", "ExitVerdict")),
